@@ -32,7 +32,9 @@ FINISH = dict(level="proof",
                    "text instructions (1-4 operands, memory operand at any position, role source/destination/src_dst from the real "
                    "assign_src_dst over a synthetic ISA description, AArch64 pre/post-index) x {direct entry, register form, register form "
                    "via suffix fall-back, both, neither}; real: curated x86/AArch64 memory instructions x every shipped model; a case is "
-                   "non-trivial when it takes the composition path or the unknown fall-back; distinct = distinct (machine, look-up results)")
+                   "non-trivial when it takes the composition path or the unknown fall-back; distinct = distinct (machine, look-up results); "
+                   "every case carries the raw load/store tables and its memory operands: rows re-selected in Coq and compared with the "
+                   "getters' answers (load, store, store with up to 3 source-register types) for every memory operand of every line")
 
 X86_VOCAB = """vaddpd (%rax), %ymm1, %ymm2
 vaddpd 8(%rax,%rcx,8), %ymm1, %ymm2
@@ -350,7 +352,11 @@ def replay_cases(ctx, r):
 def run(ctx):
     ctx.trusted += ["binary64 model Model/Num.v (validated against CPython by C01 on every run)",
                     "hand-written Model/Costing.v tied to assign_tp_lt only by the bit-exact correspondence (generator quality bounds it)",
-                    "the matcher is not modelled here (C07): look-up results are taken from the implementation's own functions",
+                    "get_instruction (direct entry / register form) is not modelled here (C07): those look-up results are taken from the "
+                    "implementation's own functions; the load/store ROW selection is modelled (Model/Rows.v over the raw tables, memory "
+                    "matcher = Model/Match.v) and compared with the implementation's getters row for row on every run",
+                    "the row oracle (harness/c08_rows.row_oracle) reads shipped rows from the model file's YAML text and judges only rows of "
+                    "the documented vocabulary (AArch64 `offset: id` rows and undeclared scales get no verdict)",
                     "exact-arithmetic theorems transfer to binary64 only up to rounding (DESIGN 0.2); the oracle judges the real floats with tolerance 1e-9"]
     ctx.assumptions += ["register forms reached by the composition path carry a plain micro-op list (a dict of alternatives yields "
                         "port_uops = keys ++ data micro-ops: modelled as PKeys, excluded from the oracle; no shipped dict entry is reachable that way)",
